@@ -125,6 +125,8 @@ pub enum Op {
     DropIndex { t: u8, col: u16 },
     Insert { t: u8, explicit_cols: bool, rows: Vec<Vec<Val>>, style: u8 },
     Select { t: u8, proj: Vec<u16>, cond: Option<Cond>, order: Option<(u16, bool, u8)>, limit: Option<u8>, offset: Option<u8>, style: u8 },
+    /// SELECT * FROM a JOIN b ON a.x = b.y [LIMIT n] [OFFSET m] (`pair` picks the tables and columns)
+    Join { pair: u8, limit: Option<u8>, offset: Option<u8>, style: u8 },
     Update { t: u8, sets: Vec<(u16, Val)>, cond: Option<Cond>, style: u8 },
     Delete { t: u8, cond: Option<Cond>, style: u8 },
     ShowTables,
@@ -211,6 +213,8 @@ fn op() -> impl Strategy<Value = Op> {
         16 => (t.clone(), prop::collection::vec(any::<u16>(), 0..3), prop::option::weighted(0.75, cond()),
                prop::option::weighted(0.3, (any::<u16>(), any::<bool>(), 0u8..3)), opt_small(), opt_small(), any::<u8>())
             .prop_map(|(t, proj, cond, order, limit, offset, style)| Op::Select { t, proj, cond, order, limit, offset, style }),
+        3 => (0u8..4, prop::option::weighted(0.6, 0u8..5), prop::option::weighted(0.6, 0u8..4), any::<u8>())
+            .prop_map(|(pair, limit, offset, style)| Op::Join { pair, limit, offset, style }),
         4 => (t.clone(), prop::collection::vec((any::<u16>(), val()), 1..3), prop::option::weighted(0.8, cond()), any::<u8>())
             .prop_map(|(t, sets, cond, style)| Op::Update { t, sets, cond, style }),
         3 => (t, prop::option::weighted(0.85, cond()), any::<u8>()).prop_map(|(t, cond, style)| Op::Delete { t, cond, style }),
@@ -586,6 +590,8 @@ enum Mode {
     PathLen,
     /// similarity: same scores in order; keys compared as sets above the lowest score
     Scores,
+    /// joins: the number of rows (the direct call's pairs, windowed by OFFSET then LIMIT); `api` is Count
+    RowCount,
 }
 
 struct Step {
@@ -904,6 +910,33 @@ fn step(op: &Op, w: &mut World, dry: bool) -> Step {
                 }
             }
             st
+        },
+        Op::Join { pair, limit, offset, style } => {
+            const PAIRS: [(&str, &str, &str, &str); 4] =
+                [("users", "id", "t1", "a"), ("users", "id", "Orders", "k"), ("t1", "a", "Orders", "k"), ("t1", "b", "users", "id")];
+            let (a, ca, b, cb) = PAIRS[*pair as usize % PAIRS.len()];
+            let mut text = format!("{} * {} {a} {} {b} {} {a}.{ca} = {b}.{cb}", kw("SELECT", *style), kw("FROM", *style), kw("JOIN", *style), kw("ON", *style));
+            if let Some(l) = limit {
+                text.push_str(&format!(" {} {l}", kw("LIMIT", *style)));
+            }
+            if let Some(o) = offset {
+                text.push_str(&format!(" {} {o}", kw("OFFSET", *style)));
+            }
+            if limit.is_some() && offset.is_some_and(|o| o > 0) {
+                feats.push("join-limit-and-offset");
+            }
+            let api = if dry {
+                Out::Count(0)
+            } else {
+                match w.rel.join(a, b, ca, cb) {
+                    Ok(pairs) => {
+                        let after_offset = pairs.len().saturating_sub(offset.map_or(0, usize::from));
+                        Out::Count(limit.map_or(after_offset, |l| after_offset.min(usize::from(l))))
+                    },
+                    Err(_) => Out::Err("RelationalError".into()),
+                }
+            };
+            mk(text, "relational", "join", feats, api, Mode::RowCount)
         },
         Op::Update { t, sets, cond, style } => {
             let td = &TABLES[*t as usize % 3];
@@ -1334,6 +1367,15 @@ fn compare(st: &Step, got: &Out) -> Result<(), (String, String)> {
             }
         },
         Mode::Ordered => return check_ordered(st, got),
+        Mode::RowCount => match (got, &st.api) {
+            (Out::Rows(rows), Out::Count(n)) => {
+                if rows.len() != *n {
+                    return differ("number of joined rows differs from the direct call's pairs windowed by OFFSET then LIMIT");
+                }
+            },
+            (Out::Err(a), Out::Err(b)) if a == b => {},
+            _ => return differ("results differ"),
+        },
     }
     Ok(())
 }
